@@ -12,6 +12,7 @@
 -/
 import Gojq.Proofs.MiniSpecLoop
 import Gojq.Proofs.MiniSpecEnv
+import Gojq.Proofs.MiniVMObjSpec
 namespace Gojq.MiniSpec
 open Gojq Gojq.MiniVM
 
@@ -1079,6 +1080,349 @@ theorem tie_sfxIndexOpt (ih : Tie defs body cfg n) (nm : Bytes) {a : Q} {core : 
     · rw [S_evalIndex_id, one_bind_clean hx]
       exact rel_navStep m' g ρ nm x hx
 
+/-! ### object construction -/
+
+/-- the entries of a mini object construction are read by the entries of a jq object term —
+    `(K): V` for a key query, `name: V` for a constant string key — and their queries satisfy `Pq` -/
+inductive TrEntries (Pq : Q → Prop) : List (EKey × Q) → List ObjKV → Prop where
+  | nil : TrEntries Pq [] []
+  | q {k v K V es kvs} : Tr k K → Tr v V → Pq k → Pq v → TrEntries Pq es kvs →
+      TrEntries Pq ((.q k, v) :: es) (.mk (.query K) (some V) :: kvs)
+  | c (nm : Bytes) {v V es kvs} : Tr v V → Pq v → TrEntries Pq es kvs →
+      TrEntries Pq ((.c (.str nm), v) :: es) (.mk (.name nm) (some V) :: kvs)
+  | s (nm : Bytes) {v V es kvs} : Tr v V → Pq v → TrEntries Pq es kvs →
+      TrEntries Pq ((.c (.str nm), v) :: es) (.mk (.str (.lit nm)) (some V) :: kvs)
+  | short (nm : Bytes) {es kvs} : TrEntries Pq es kvs →
+      TrEntries Pq ((.c (.str nm), .index (.str nm)) :: es) (.mk (.name nm) none :: kvs)
+  | shortS (nm : Bytes) {es kvs} : TrEntries Pq es kvs →
+      TrEntries Pq ((.c (.str nm), .index (.str nm)) :: es) (.mk (.str (.lit nm)) none :: kvs)
+  | var (x : Nat) {es kvs} : Pq (.var x) → TrEntries Pq es kvs →
+      TrEntries Pq ((.c (.str (B (Spec.dropFirst (vname x)))), .var x) :: es) (.mk (.var (vname x)) none :: kvs)
+
+theorem TrEntries.append {Pq : Q → Prop} {a A b B} (ha : TrEntries Pq a A) (hb : TrEntries Pq b B) :
+    TrEntries Pq (a ++ b) (A ++ B) := by
+  induction ha with
+  | nil => exact hb
+  | q h1 h2 h3 h4 _ ih => exact .q h1 h2 h3 h4 ih
+  | c nm h1 h2 _ ih => exact .c nm h1 h2 ih
+  | s nm h1 h2 _ ih => exact .s nm h1 h2 ih
+  | short nm _ ih => exact .short nm ih
+  | shortS nm _ ih => exact .shortS nm ih
+  | var x h1 _ ih => exact .var x h1 ih
+
+theorem bindG_eq_guardND (r : MiniVM.Res) (f : V → MiniVM.Res) :
+    r.bindG f = guardND r (Res.bindL f r.outs r.stop) := rfl
+
+theorem S_evalObject_nil (fuel : Nat) (env : Spec.Env) (acc : List (JV × JV)) (s : Spec.St) (ctx : Option Spec.PCtx) :
+    Spec.evalObject (fuel+1) cfg env [] acc s ctx =
+      match acc.reverse.find? (fun (k, _) => match k with | .str _ => false | _ => true) with
+      | some (k, _) => .fail (.builtin "objectKeyNotString" [k])
+      | none =>
+        .one { v := JV.mkObj (acc.filterMap fun (k, v) => match k with | .str b => some (b, v) | _ => none),
+               id := .fresh, ctx := ctx } := rfl
+
+theorem S_evalObject_query (fuel : Nat) (env : Spec.Env) (K V : Query) (rest : List ObjKV)
+    (acc : List (JV × JV)) (s : Spec.St) (ctx : Option Spec.PCtx) :
+    Spec.evalObject (fuel+1) cfg env (.mk (.query K) (some V) :: rest) acc s ctx =
+      (Spec.eval fuel cfg env K { s with ctx := ctx }).bind fun k =>
+        (Spec.eval fuel cfg env V { s with ctx := k.ctx }).bind fun v =>
+          Spec.evalObject fuel cfg env rest (acc ++ [(k.v, v.v)]) s v.ctx := rfl
+
+theorem S_evalObject_name (fuel : Nat) (env : Spec.Env) (nm : Bytes) (V : Query) (rest : List ObjKV)
+    (acc : List (JV × JV)) (s : Spec.St) (ctx : Option Spec.PCtx) :
+    Spec.evalObject (fuel+1) cfg env (.mk (.name nm) (some V) :: rest) acc s ctx =
+      (Spec.Res.one (Spec.computed { s with ctx := ctx } (.str nm))).bind fun k =>
+        (Spec.eval fuel cfg env V { s with ctx := k.ctx }).bind fun v =>
+          Spec.evalObject fuel cfg env rest (acc ++ [(k.v, v.v)]) s v.ctx := rfl
+
+theorem S_evalObject_strlit (fuel : Nat) (env : Spec.Env) (nm : Bytes) (V : Query) (rest : List ObjKV)
+    (acc : List (JV × JV)) (s : Spec.St) (ctx : Option Spec.PCtx) :
+    Spec.evalObject (fuel+2) cfg env (.mk (.str (.lit nm)) (some V) :: rest) acc s ctx =
+      (Spec.Res.one (Spec.computed { s with ctx := ctx } (.str nm))).bind fun k =>
+        (Spec.eval (fuel+1) cfg env V { s with ctx := k.ctx }).bind fun v =>
+          Spec.evalObject (fuel+1) cfg env rest (acc ++ [(k.v, v.v)]) s v.ctx := rfl
+
+theorem S_evalObject_strlit1 (env : Spec.Env) (nm : Bytes) (V : Option Query) (rest : List ObjKV)
+    (acc : List (JV × JV)) (s : Spec.St) (ctx : Option Spec.PCtx) :
+    Spec.evalObject 1 cfg env (.mk (.str (.lit nm)) V :: rest) acc s ctx = Spec.Res.outOfFuel := rfl
+
+theorem S_evalObject_short (fuel : Nat) (env : Spec.Env) (nm : Bytes) (rest : List ObjKV)
+    (acc : List (JV × JV)) (s : Spec.St) (ctx : Option Spec.PCtx) :
+    Spec.evalObject (fuel+1) cfg env (.mk (.name nm) none :: rest) acc s ctx =
+      (Spec.Res.one (Spec.computed { s with ctx := ctx } (.str nm))).bind fun k =>
+        (Spec.navStep { s with ctx := k.ctx } (.str nm)).bind fun v =>
+          Spec.evalObject fuel cfg env rest (acc ++ [(k.v, v.v)]) s v.ctx := rfl
+
+theorem S_evalObject_shortS (fuel : Nat) (env : Spec.Env) (nm : Bytes) (rest : List ObjKV)
+    (acc : List (JV × JV)) (s : Spec.St) (ctx : Option Spec.PCtx) :
+    Spec.evalObject (fuel+2) cfg env (.mk (.str (.lit nm)) none :: rest) acc s ctx =
+      (Spec.Res.one (Spec.computed { s with ctx := ctx } (.str nm))).bind fun k =>
+        (Spec.navStep { s with ctx := k.ctx } (.str nm)).bind fun v =>
+          Spec.evalObject (fuel+1) cfg env rest (acc ++ [(k.v, v.v)]) s v.ctx := rfl
+
+theorem S_evalObject_var (fuel : Nat) (env : Spec.Env) (name : String) (rest : List ObjKV)
+    (acc : List (JV × JV)) (s : Spec.St) (ctx : Option Spec.PCtx) :
+    Spec.evalObject (fuel+1) cfg env (.mk (.var name) none :: rest) acc s ctx =
+      (Spec.Res.one (Spec.computed { s with ctx := ctx } (.str (B (Spec.dropFirst name))))).bind fun k =>
+        (Spec.evalCall fuel cfg env name [] { s with ctx := k.ctx }).bind fun v =>
+          Spec.evalObject fuel cfg env rest (acc ++ [(k.v, v.v)]) s v.ctx := rfl
+
+theorem S_object (M : Nat) (env : Spec.Env) (s : Spec.St) (kvs : List ObjKV) :
+    Spec.evalCore (M+1) cfg env (.object kvs) s = Spec.evalObject M cfg env kvs [] s s.ctx := rfl
+
+/-- The object case of the simulation, given the simulation of the keys and values: if every key
+    and value query of the entries is simulated (`Rel`) at every `Spec` fuel (`≥ lo` when the claim
+    includes "not out of fuel"), then `Spec.evalObject` (with fuel above `lo` + the number of
+    entries) is simulated by the mini evaluator's `evalEntries` — same nesting of the loops, same
+    accumulated pairs, same final object or key error (`objOfPairs_eq_spec`). -/
+theorem rel_evalObject {b : Bool} (env : Spec.Env) (s : Spec.St) (hs : Clean s)
+    (ev : Q → V → MiniVM.Res) (lo : Nat) (Pq : Q → Prop)
+    (H : ∀ (M : Nat) (q : Q) (A : Query) (s' : Spec.St), Tr q A → Pq q → Clean s' → s'.v = s.v → (b = true → lo ≤ M) →
+      ND (ev q s.v).stop → Rel b (Spec.eval M cfg env A s') (ev q s.v))
+    (Hidx : ∀ (nm : Bytes) (s' : Spec.St), Clean s' → s'.v = s.v → ND (ev (.index (.str nm)) s.v).stop →
+      Rel b (Spec.navStep s' (.str nm)) (ev (.index (.str nm)) s.v))
+    (Hvar : ∀ (M : Nat) (x : Nat) (s' : Spec.St), Pq (.var x) → Clean s' → s'.v = s.v → (b = true → lo ≤ M) →
+      ND (ev (.var x) s.v).stop → Rel b (Spec.evalCall M cfg env (vname x) [] s') (ev (.var x) s.v)) :
+    ∀ (es : List (EKey × Q)) (kvs : List ObjKV), TrEntries Pq es kvs →
+    ∀ (fuel : Nat) (acc : List (V × V)) (ctx : Option Spec.PCtx), ctx = none → (b = true → lo + es.length < fuel) →
+      ND (evalEntries ev s.v es acc).stop →
+      Rel b (Spec.evalObject fuel cfg env kvs acc s ctx) (evalEntries ev s.v es acc) := by
+  intro es kvs htr
+  induction htr with
+  | nil =>
+    intro fuel acc ctx hctx hf _
+    subst hctx
+    cases fuel with
+    | zero => exact Rel.fuel (fun hb => by have := hf hb; omega) _
+    | succ f =>
+      rw [S_evalObject_nil]
+      simp only [evalEntries]
+      rw [objOfPairs_eq_spec]
+      unfold nonStr strPairs
+      cases acc.reverse.find? (fun (x : V × V) => match x with | (k, _) => match k with | .str _ => false | _ => true) with
+      | some kv => exact .err [] (.keyNotStr kv.1) (by simp)
+      | none => exact Rel.one _ ⟨rfl, rfl⟩
+  | @q k v K V es kvs hk hv hpk hpv _ ih =>
+    intro fuel acc ctx hctx hf hnd
+    subst hctx
+    simp only [List.length_cons] at hf
+    cases fuel with
+    | zero => exact Rel.fuel (fun hb => by have := hf hb; omega) _
+    | succ f =>
+      rw [S_evalObject_query]
+      simp only [evalEntries, bindG_eq_guardND] at hnd ⊢
+      have hs0 : Clean { s with ctx := none } := ⟨rfl, hs.2⟩
+      refine Rel.gbind hnd (fun h => H f k K _ hk hpk hs0 rfl (fun hb => by have := hf hb; omega) h) ?_
+      intro kk hkk hndk
+      have hs1 : Clean { s with ctx := kk.ctx } := ⟨hkk.1, hs.2⟩
+      refine Rel.gbind hndk (fun h => H f v V _ hv hpv hs1 rfl (fun hb => by have := hf hb; omega) h) ?_
+      intro vv hvv hndv
+      exact ih f (acc ++ [(kk.v, vv.v)]) vv.ctx hvv.1 (fun hb => by have := hf hb; omega) hndv
+  | @c nm v V es kvs hv hpv _ ih =>
+    intro fuel acc ctx hctx hf hnd
+    subst hctx
+    simp only [List.length_cons] at hf
+    cases fuel with
+    | zero => exact Rel.fuel (fun hb => by have := hf hb; omega) _
+    | succ f =>
+      rw [S_evalObject_name]
+      have hk0 : Clean (Spec.computed { s with ctx := none } (.str nm)) := ⟨rfl, rfl⟩
+      rw [one_bind_clean hk0]
+      simp only [evalEntries, bindG_eq_guardND] at hnd ⊢
+      have hs1 : Clean { s with ctx := (Spec.computed { s with ctx := none } (.str nm)).ctx } := ⟨rfl, hs.2⟩
+      refine Rel.gbind hnd (fun h => H f v V _ hv hpv hs1 rfl (fun hb => by have := hf hb; omega) h) ?_
+      intro vv hvv hndv
+      exact ih f (acc ++ [(.str nm, vv.v)]) vv.ctx hvv.1 (fun hb => by have := hf hb; omega) hndv
+  | @s nm v V es kvs hv hpv _ ih =>
+    intro fuel acc ctx hctx hf hnd
+    subst hctx
+    simp only [List.length_cons] at hf
+    rcases fuel with _ | _ | f
+    · exact Rel.fuel (fun hb => by have := hf hb; omega) _
+    · rw [S_evalObject_strlit1]; exact Rel.fuel (fun hb => by have := hf hb; omega) _
+    · rw [S_evalObject_strlit]
+      have hk0 : Clean (Spec.computed { s with ctx := none } (.str nm)) := ⟨rfl, rfl⟩
+      rw [one_bind_clean hk0]
+      simp only [evalEntries, bindG_eq_guardND] at hnd ⊢
+      have hs1 : Clean { s with ctx := (Spec.computed { s with ctx := none } (.str nm)).ctx } := ⟨rfl, hs.2⟩
+      refine Rel.gbind hnd (fun h => H (f+1) v V _ hv hpv hs1 rfl (fun hb => by have := hf hb; omega) h) ?_
+      intro vv hvv hndv
+      exact ih (f+1) (acc ++ [(.str nm, vv.v)]) vv.ctx hvv.1 (fun hb => by have := hf hb; omega) hndv
+  | @short nm es kvs _ ih =>
+    intro fuel acc ctx hctx hf hnd
+    subst hctx
+    simp only [List.length_cons] at hf
+    cases fuel with
+    | zero => exact Rel.fuel (fun hb => by have := hf hb; omega) _
+    | succ f =>
+      rw [S_evalObject_short]
+      have hk0 : Clean (Spec.computed { s with ctx := none } (.str nm)) := ⟨rfl, rfl⟩
+      rw [one_bind_clean hk0]
+      simp only [evalEntries, bindG_eq_guardND] at hnd ⊢
+      have hs1 : Clean { s with ctx := (Spec.computed { s with ctx := none } (.str nm)).ctx } := ⟨rfl, hs.2⟩
+      refine Rel.gbind hnd (fun h => Hidx nm _ hs1 rfl h) ?_
+      intro vv hvv hndv
+      exact ih f (acc ++ [(.str nm, vv.v)]) vv.ctx hvv.1 (fun hb => by have := hf hb; omega) hndv
+  | @shortS nm es kvs _ ih =>
+    intro fuel acc ctx hctx hf hnd
+    subst hctx
+    simp only [List.length_cons] at hf
+    rcases fuel with _ | _ | f
+    · exact Rel.fuel (fun hb => by have := hf hb; omega) _
+    · rw [S_evalObject_strlit1]; exact Rel.fuel (fun hb => by have := hf hb; omega) _
+    · rw [S_evalObject_shortS]
+      have hk0 : Clean (Spec.computed { s with ctx := none } (.str nm)) := ⟨rfl, rfl⟩
+      rw [one_bind_clean hk0]
+      simp only [evalEntries, bindG_eq_guardND] at hnd ⊢
+      have hs1 : Clean { s with ctx := (Spec.computed { s with ctx := none } (.str nm)).ctx } := ⟨rfl, hs.2⟩
+      refine Rel.gbind hnd (fun h => Hidx nm _ hs1 rfl h) ?_
+      intro vv hvv hndv
+      exact ih (f+1) (acc ++ [(.str nm, vv.v)]) vv.ctx hvv.1 (fun hb => by have := hf hb; omega) hndv
+  | @var x es kvs hpx _ ih =>
+    intro fuel acc ctx hctx hf hnd
+    subst hctx
+    simp only [List.length_cons] at hf
+    cases fuel with
+    | zero => exact Rel.fuel (fun hb => by have := hf hb; omega) _
+    | succ f =>
+      rw [S_evalObject_var]
+      have hk0 : Clean (Spec.computed { s with ctx := none } (.str (B (Spec.dropFirst (vname x))))) := ⟨rfl, rfl⟩
+      rw [one_bind_clean hk0]
+      simp only [evalEntries, bindG_eq_guardND] at hnd ⊢
+      have hs1 : Clean { s with ctx := (Spec.computed { s with ctx := none } (.str (B (Spec.dropFirst (vname x))))).ctx } :=
+        ⟨rfl, hs.2⟩
+      refine Rel.gbind hnd (fun h => Hvar f x _ hpx hs1 rfl (fun hb => by have := hf hb; omega) h) ?_
+      intro vv hvv hndv
+      exact ih f (acc ++ [(.str (B (Spec.dropFirst (vname x))), vv.v)]) vv.ctx hvv.1 (fun hb => by have := hf hb; omega) hndv
+
+/-- the entries of a spine read as an object term, with well-scopedness of every key and value -/
+theorem trEntries_of_spine (k : Nat) (ρ : MiniVM.Env) : ∀ (sp : Q), sp.IsSpine → ∀ (kvs : List ObjKV),
+    Tr sp (T (.object kvs)) → sp.Closed k (ρ.vars.map (·.1)) → (sp.HasParam → ρ.clo ≠ .none) →
+    TrEntries (QOK k ρ) sp.entries kvs := by
+  intro sp
+  induction sp with
+  | objStart =>
+    intro _ kvs h _ _
+    cases h with
+    | objStart => exact .nil
+    | @obj _ sp' _ _ _ _ heq => cases hm : sp'.entries.length <;> simp [hm, delayN] at heq
+  | objSnoc init kq v ihi _ _ =>
+    intro hsp kvs h hc hp
+    simp only [Q.IsSpine] at hsp
+    simp only [Q.Closed] at hc
+    simp only [Q.HasParam] at hp
+    cases h with
+    | objSnoc h1 h2 h3 =>
+      exact (ihi hsp _ h1 hc.1 (fun h => hp (Or.inl h))).append
+        (.q h2 h3 ⟨hc.2.1, fun h => hp (Or.inr (Or.inl h))⟩ ⟨hc.2.2, fun h => hp (Or.inr (Or.inr h))⟩ .nil)
+    | @obj _ sp' _ _ _ _ heq => cases hm : sp'.entries.length <;> simp [hm, delayN] at heq
+  | objSnocC init key v ihi _ =>
+    intro hsp kvs h hc hp
+    simp only [Q.IsSpine] at hsp
+    simp only [Q.Closed] at hc
+    simp only [Q.HasParam] at hp
+    cases h with
+    | objSnocC nm h1 h2 =>
+      exact (ihi hsp _ h1 hc.1 (fun h => hp (Or.inl h))).append
+        (.c nm h2 ⟨hc.2, fun h => hp (Or.inr h)⟩ .nil)
+    | objSnocS nm h1 h2 =>
+      exact (ihi hsp _ h1 hc.1 (fun h => hp (Or.inl h))).append
+        (.s nm h2 ⟨hc.2, fun h => hp (Or.inr h)⟩ .nil)
+    | objShort nm h1 => exact (ihi hsp _ h1 hc.1 (fun h => hp (Or.inl h))).append (.short nm .nil)
+    | objShortS nm h1 => exact (ihi hsp _ h1 hc.1 (fun h => hp (Or.inl h))).append (.shortS nm .nil)
+    | objVar x h1 =>
+      exact (ihi hsp _ h1 hc.1 (fun h => hp (Or.inl h))).append
+        (.var x ⟨hc.2, fun h => hp (Or.inr h)⟩ .nil)
+    | @obj _ sp' _ _ _ _ heq => cases hm : sp'.entries.length <;> simp [hm, delayN] at heq
+  | _ => intro h; simp [Q.IsSpine] at h
+
+theorem eval_delayN (m : Nat) : ∀ (fuel : Nat) (g : Ctx) (ρ : MiniVM.Env) (q : Q) (v : V),
+    eval defs (fuel + m) g ρ (delayN m q) v = eval defs fuel g ρ q v := by
+  induction m with
+  | zero => intros; rfl
+  | succ m ih => intro fuel g ρ q v; exact ih fuel g ρ q v
+
+theorem eval_delayN_small (m : Nat) : ∀ (fuel : Nat) (g : Ctx) (ρ : MiniVM.Env) (q : Q) (v : V), fuel ≤ m →
+    eval defs fuel g ρ (delayN m q) v = ⟨[], .diverge⟩ := by
+  induction m with
+  | zero => intro fuel g ρ q v h; have : fuel = 0 := by omega
+            subst this; rfl
+  | succ m ih =>
+    intro fuel g ρ q v h
+    cases fuel with
+    | zero => rfl
+    | succ f => exact ih f g ρ q v (by omega)
+
+theorem closed_delayN (m : Nat) (q : Q) (nf : Nat) (vs : List Nat) : (delayN m q).Closed nf vs ↔ q.Closed nf vs := by
+  induction m with
+  | zero => exact Iff.rfl
+  | succ m ih => simpa [delayN, Q.Closed] using ih
+
+theorem hasParam_delayN (m : Nat) (q : Q) : (delayN m q).HasParam ↔ q.HasParam := by
+  induction m with
+  | zero => exact Iff.rfl
+  | succ m ih => simpa [delayN, Q.HasParam] using ih
+
+theorem tie_delay (ih : Tie defs body cfg n) {a : Q} {A : Query} (ha : Tr a A) (he : EnvRel defs body k ρ bs) (hs : Clean s)
+    (hq : QOK k ρ (.delay a))
+    (hN : b = true → 6 * (n+1) ≤ N) (hnd : ND (eval defs (n+1) g ρ (.delay a) s.v).stop) :
+    Rel b (Spec.eval N cfg (.mk bs) A s) (eval defs (n+1) g ρ (.delay a) s.v) :=
+  ih N b a A g ρ k bs s ha (fun h => by have := hN h; omega) he hs ⟨hq.closed, hq.par⟩ hnd
+
+theorem tie_obj (ihle : ∀ m, m ≤ n → Tie defs body cfg m) {q sp : Q} {kvs : List ObjKV}
+    (hsp : Tr sp (T (.object kvs))) (hspine : sp.IsSpine) (hq' : q = delayN sp.entries.length (.obj sp))
+    (he : EnvRel defs body k ρ bs) (hs : Clean s) (hq : QOK k ρ q)
+    (hN : b = true → 6 * (n+1) ≤ N) (hnd : ND (eval defs (n+1) g ρ q s.v).stop) :
+    Rel b (Spec.eval N cfg (.mk bs) (T (.object kvs)) s) (eval defs (n+1) g ρ q s.v) := by
+  subst hq'
+  by_cases hle : n + 1 ≤ sp.entries.length
+  · rw [eval_delayN_small _ _ _ _ _ _ hle] at hnd
+    exact absurd hnd (by simp [ND])
+  · obtain ⟨j, hj⟩ : ∃ j, n + 1 = (j + 1) + sp.entries.length := ⟨n - sp.entries.length, by omega⟩
+    rw [hj, eval_delayN] at hnd ⊢
+    have hm : eval defs (j+1) g ρ (.obj sp) s.v = evalEntries (fun q x => eval defs j g ρ q x) s.v sp.entries [] := rfl
+    rw [hm] at hnd ⊢
+    have hcl : sp.Closed k (ρ.vars.map (·.1)) := ((closed_delayN _ _ _ _).mp hq.closed).1
+    have hpar : sp.HasParam → ρ.clo ≠ .none := fun h => hq.par ((hasParam_delayN _ _).mpr h)
+    have hent := trEntries_of_spine k ρ sp hspine kvs hsp hcl hpar
+    rcases N with _ | _ | _ | M
+    · small_fuel hN
+    · small_fuel hN
+    · small_fuel hN
+    · rw [S_T, S_object]
+      refine rel_evalObject (.mk bs) s hs _ (6 * j) (QOK k ρ) ?_ ?_ ?_ sp.entries kvs hent M [] s.ctx hs.1
+        (fun hb => by have := hN hb; omega) hnd
+      · intro M' q' A' s' htr hqok hs' hv hM' hndq
+        have := ihle j (by omega) M' b q' A' g ρ k bs s' htr hM' he hs' hqok (by rw [hv]; exact hndq)
+        rw [hv] at this
+        exact this
+      · intro nm s' hs' hv hndq
+        obtain ⟨j', rfl⟩ := nd_pos hndq
+        have := rel_navStep (defs := defs) (b := b) j' g ρ nm s' hs'
+        rw [hv] at this
+        exact this
+      · intro M' x s' hqok hs' hv hM' hndq
+        obtain ⟨j', rfl⟩ := nd_pos hndq
+        obtain ⟨w, hw⟩ := lookup_of_mem x ρ.vars hqok.closed
+        obtain ⟨id, hid⟩ := he.vars x w hw
+        cases M' with
+        | zero => exact Rel.fuel (fun hb => by have := hM' hb; have := hN hb; omega) _
+        | succ M'' =>
+          show Rel b (Spec.evalCall (M''+1) cfg (.mk bs) (vname x) [] s')
+            (match MiniVM.lookup x ρ.vars with
+              | some w => ⟨[w], .done⟩
+              | none => ⟨[], .err (.noVar x)⟩)
+          rw [hw]
+          have hcall : Spec.evalCall (M''+1) cfg (.mk bs) (vname x) [] s' = .one { v := w, id := id, ctx := s'.ctx } := by
+            show (match Spec.lookupCall (vname x) ([] : List Query).length (Spec.Env.mk bs).bs with
+              | .var v id => Spec.Res.one { v := v, id := id, ctx := s'.ctx }
+              | .clo body cenv => Spec.eval M'' cfg cenv body s'
+              | .fn params body fenv _ => Spec.callDef M'' cfg (.mk bs) fenv params body [] s'
+              | .none => _) = _
+            simp only [List.length_nil, Spec.Env.bs, hid]
+          rw [hcall]
+          exact Rel.one _ ⟨hs'.1, rfl⟩
+
 end Constructs
 
 /-- the simulation, for every mini fuel -/
@@ -1126,5 +1470,14 @@ theorem tie_all (defs : Name → Q) (body : Nat → Query) (cfg : Spec.Cfg) (hc 
       | sfxOpt h1 h2 => exact tie_sfxOpt ih h1 h2 he hs hq hN hnd
       | sfxIterOpt h1 => exact tie_sfxIterOpt ih h1 he hs hq hN hnd
       | sfxIndexOpt nm h1 => exact tie_sfxIndexOpt ih nm h1 he hs hq hN hnd
+      | delay h1 => exact tie_delay ih h1 he hs hq hN hnd
+      | objStart => exact absurd hnd (by simp [eval, ND])
+      | objSnoc _ _ _ => exact absurd hnd (by simp [eval, ND])
+      | objSnocC nm _ _ => exact absurd hnd (by simp [eval, ND])
+      | objSnocS nm _ _ => exact absurd hnd (by simp [eval, ND])
+      | objShort nm _ => exact absurd hnd (by simp [eval, ND])
+      | objShortS nm _ => exact absurd hnd (by simp [eval, ND])
+      | objVar x _ => exact absurd hnd (by simp [eval, ND])
+      | obj h1 h2 _ h4 => exact tie_obj ihle h1 h2 h4 he hs hq hN hnd
 
 end Gojq.MiniSpec
